@@ -35,11 +35,10 @@ impl Srcloc {
 //@ sigfile r contracts/srcloc_ext.sig
 //@ end
 }
-// ASSUMED contract: except for a #-prefixed word (replaced by the primitive it names, which carries its own location) the value made from a word is located where the caller says
+// proved in unit `makeatom` (same contract text): except for a #-prefixed word (replaced by the primitive it names, which carries its own location) the value made from a word is located where the caller says
 //@ extract fn make_atom from src/compiler/sexp.rs
 //@ stub
-//@ sig r
-    ensures (v@.len() == 0 || v@[0] != 0x23u8) ==> sloc(r) == l
+//@ sigfile r contracts/make_atom.sig
 //@ end
 //@ extract fn make_cons from src/compiler/sexp.rs
 //@ stub
